@@ -23,6 +23,7 @@ type G struct {
 	done    bool
 	ready   func() bool // nil = runnable
 	waitsOn string
+	yielding bool
 }
 
 type Sched struct {
@@ -143,6 +144,16 @@ func (s *Sched) runnable() []*G {
 
 func (s *Sched) pick() *G {
 	r := s.runnable()
+	// a goroutine that merely yields is chosen only when nobody else can run
+	var ny []*G
+	for _, g := range r {
+		if !g.yielding {
+			ny = append(ny, g)
+		}
+	}
+	if len(ny) > 0 {
+		r = ny
+	}
 	if len(r) == 0 {
 		return nil
 	}
@@ -156,7 +167,7 @@ func (s *Sched) pick() *G {
 // block suspends the current goroutine until ready() holds.
 func (s *Sched) block(ready func() bool, what string) {
 	g := s.cur
-	if ready() && len(s.gs) == 1 {
+	if len(s.gs) == 1 && ready() {
 		return
 	}
 	g.ready = ready
@@ -195,6 +206,31 @@ func (s *Sched) block(ready func() bool, what string) {
 				panic(pathEnd{"deadlock", "all goroutines blocked; main waits on " + what})
 			}
 		}
+	}
+}
+
+// othersFirst lets every other runnable goroutine run until it blocks or ends
+// before the current one performs a blocking operation (receive/select): what
+// arrives "later" is then represented by the environment/scheduling decisions
+// taken at the operation itself.
+func (s *Sched) othersFirst() {
+	if len(s.gs) == 1 {
+		return
+	}
+	g := s.cur
+	for {
+		others := false
+		for _, o := range s.runnable() {
+			if o != g && !o.yielding {
+				others = true
+			}
+		}
+		if !others {
+			return
+		}
+		g.yielding = true
+		s.block(func() bool { return true }, "yield")
+		g.yielding = false
 	}
 }
 
@@ -397,6 +433,9 @@ func (in *Interp) chanClose(c *Chan) {
 func (in *Interp) selectOp(instr *ssa.Select, fr *frame) Value {
 	s := in.sched
 	s.maybePreempt()
+	if instr.Blocking {
+		s.othersFirst()
+	}
 	type st struct {
 		c    *Chan
 		send Value
@@ -529,8 +568,10 @@ func (in *Interp) selectOp(instr *ssa.Select, fr *frame) Value {
 // ---- native objects (contexts etc.) ----
 
 type NativeObj struct {
-	kind string
-	f    map[string]Value
+	kind     string
+	f        map[string]Value
+	parent   *NativeObj
+	children []*NativeObj
 }
 
 type NativeFn struct {
